@@ -15,10 +15,12 @@ A case (JSON):
            "lat": ticks until the server's first byte, "gap": ticks between pieces}]
   style  {"sp": bool, "ascii": bool}     how the scripted server writes JSON text
   D      helper timeout in ticks (1/1024 s)
+  tie    "events" | "timers" | "io": order of scripted arrivals and timers at equal instants (vloop)
   wire   per carrier, the free choices of its encoding (all optional):
          stdio   {"crlf": [bool per message], "cuts": [[byte offsets inside the exchange's block]]}
          json    [{"status", "sess", "batch"}]                       per exchange
-         httpsse [{"status", "sess", "evs": [{"name", "nc", "dc"}], "eols", "tail"}]
+         httpsse [{"status", "sess", "evs": [{"name", "nc", "dc", "after": [ignored], "before": [event without message]}],
+                   "eols", "tail", "trailing": [event without message]}]     (events as in http_gen)
          sse     {"pre": [{"k","d","crlf"}], "crlf": [bool per message], "cuts": [[...]], "ack": [piece index]}
 
 Observation per carrier: the read-stream transcript seen by a tap on the read stream (id with JSON
@@ -372,10 +374,15 @@ async def run_stdio(case, obs):
 # ------------------------------------------------------------------------------- Streamable HTTP
 
 def sse_body_of(texts, c):
+    """the SSE body of one exchange in http_gen's vocabulary: per message its own event, preceded by
+    the events without a message chosen for it (`before`), and the `trailing` ones at the end"""
     evs = []
     for i, t in enumerate(texts):
         e = nth(c.get("evs"), i, None) or {}
-        evs.append({"name": e.get("name"), "data": [t], "nc": e.get("nc") or dict(G.DFLT), "dc": [e.get("dc") or dict(G.DFLT)]})
+        evs += copy.deepcopy(list(e.get("before") or []))
+        evs.append({"name": e.get("name"), "data": [t], "nc": e.get("nc") or dict(G.DFLT), "dc": [e.get("dc") or dict(G.DFLT)],
+                    "after": list(e.get("after") or [])})
+    evs += copy.deepcopy(list(c.get("trailing") or []))
     return {"form": "sse", "events": evs, "eols": list(c.get("eols") or []), "tail": c.get("tail", "full")}
 
 
@@ -556,7 +563,7 @@ def run_carrier(case, carrier):
 
     uuid.uuid4 = fake_uuid4
     try:
-        dl = sse_h.guarded_run(main)
+        dl = sse_h.guarded_run(main, tie=case.get("tie", "events"))
         if dl is not None:
             obs["deadlock"] = [x for x in dl if "run_carrier" not in x]
     except BaseException as ex:  # harness failure, not an observation
